@@ -13,8 +13,7 @@
                    `freeze` threads its bound set; D over-approximates the names that the enclosing
                    scopes (inside the frozen expression) may declare.  The only side conditions are at
                    a lambda (no name that may be replaced in its body is declared by an enclosing
-                   scope: `declared before captured`) and at the first iteratee of a for loop (it
-                   declares nothing).  With P empty it relates every frozen-free expression to itself.
+                   scope: `declared before captured`).  With P empty it relates every frozen-free expression to itself.
      vrel, srel    values / stores of the original run and of the frozen run
      cinv, chain_budget, agree   the invariants
    Definitions only. *)
@@ -72,7 +71,7 @@ Section Rel.
       fzr P (DU D (while_budget c b)) B c c' -> fzr P (DU D (while_budget c b)) (bnd B c) b b' ->
       fzr P D B (EWhile c b) (EWhile c' b')
   | FFor P D B x e e' cls cls' y body body' :
-      fzr P D B e e' -> ddecl e = [] ->
+      fzr P D B e e' ->
       fzrC P (DU D (for_budget x cls body)) (x :: bnd B e) cls cls' ->
       fzr P (DU D (for_budget x cls body)) (bndC (x :: bnd B e) cls) body body' ->
       fzr P D B (EFor x e cls y body) (EFor x e' cls' y body')
